@@ -60,16 +60,16 @@ static int ext_index(const void * p)
 /* prints " <kind> <id> <byte offset>" of an address that has room for esz
  * bytes inside an external buffer or a live heap block; returns 0 if there
  * is no such place */
-static int print_loc(const void * p, size_t esz)
+static int print_loc(char * out, const void * p, size_t esz)
 {
     int e, i;
-    if (!p) { printf(" -1"); return 1; }
+    if (!p) { sprintf(out, " -1"); return 1; }
     for (e = 0; e < next_; e++) {
         const char * b = extb[e];
         if ((const char *)p >= b && (const char *)p <= b + extc[e]
             && (size_t)((const char *)p - b) + esz <= extc[e]
             && (size_t)((const char *)p - b) + esz >= esz) {
-            printf(" 1 %d %zu", e, (size_t)((const char *)p - b));
+            sprintf(out, " 1 %d %zu", e, (size_t)((const char *)p - b));
             return 1;
         }
     }
@@ -78,7 +78,7 @@ static int print_loc(const void * p, size_t esz)
         if (ha_blk[i].live && (const char *)p >= b && (const char *)p <= b + ha_blk[i].sz
             && (size_t)((const char *)p - b) + esz <= ha_blk[i].sz
             && (size_t)((const char *)p - b) + esz >= esz) {
-            printf(" 0 %d %zu", i, (size_t)((const char *)p - b));
+            sprintf(out, " 0 %d %zu", i, (size_t)((const char *)p - b));
             return 1;
         }
     }
@@ -181,6 +181,7 @@ static void run_case(const struct h_case * c)
         const struct h_line * l = &c->lines[i];
         int nw = l->nw, a, b, marks[H_MAXW], nmarks = 0;
         unsigned long long x2, x3, x4;
+        char locbuf[96];
 
         if (h_weq(l, 0, "pool")) {
             for (k = 1; k < l->nw && k <= MAXO; k++) kind[k - 1] = l->w[k][0];
@@ -306,8 +307,8 @@ static void run_case(const struct h_case * c)
         else if (h_weq(l, 0, "adata")) {
             void * p = cstl_array_data(&pool[a].a);
             ha_active = 0;
-            printf("ok");
-            if (!print_loc(p, 0)) { printf(" outside\n"); die_fault(); }
+            if (!print_loc(locbuf, p, 0)) { fprintf(stderr, "adata: address outside every live buffer\n"); die_fault(); }
+            printf("ok%s", locbuf);
         }
         else if (h_weq(l, 0, "aat")) {
             void * p = cstl_array_at(&pool[a].a, (size_t)x2);
@@ -315,8 +316,8 @@ static void run_case(const struct h_case * c)
             size_t esz = ra ? ra->sz : 1;
             ha_active = 0;
             if (!p) die_fault();
-            printf("ok");
-            if (!print_loc(p, esz)) { printf(" outside\n"); die_fault(); }
+            if (!print_loc(locbuf, p, esz)) { fprintf(stderr, "aat: address outside every live buffer\n"); die_fault(); }
+            printf("ok%s", locbuf);
             /* the access the caller is entitled to make */
             if (esz > 0 && esz <= 4096) memset(p, 0x5a, esz);
         }
